@@ -41,6 +41,9 @@ def one(e, base):
     elif e.get('generator') == 'py-swap-cmp':
         from py_swap_cmp import main as pyswap
         pyswap(d)
+    elif e.get('generator') == 'cxx-idioms':
+        from cxx_idioms import main as idioms
+        idioms(d)
     elif e.get('generator') == 'insert-noops':
         from insert_noops import main as noops
         noops(d)
